@@ -260,6 +260,10 @@ func c07Roots() []c07Root {
 			out = append(out, c07Root{fmt.Sprintf("%s/subset=%v", m, sub), rootRequest(m, sub, false)})
 		}
 	}
+	// untidy identifiers and a larger instance
+	for _, m := range allMethods {
+		out = append(out, c07Root{m + "/odd-ids", oddIdsRequest(m)}, c07Root{m + "/5-criteria-6-alternatives", bigRequest(m)})
+	}
 	// heuristics with a current choice inside / outside choseToMake (the current choice must survive every bias)
 	for _, m := range []string{"majorityHeuristic", "satisfactionHeuristic"} {
 		for _, cc := range []string{"a", "c"} {
